@@ -145,14 +145,20 @@ Gone(C, fs, d) == DOMAIN C.cf[d] \ Kept(C, fs, d)              \* removed or cha
 Fresh(C, fs, d) == DOMAIN fs[d] \ Kept(C, fs, d)               \* added or changed
 Changed(C, fs, d) == Gone(C, fs, d) \cap DOMAIN fs[d]
 
-BaseName(n) == n    \* flat directories in the model; the trace driver passes names without '/' when nsec # 0
+DiskIdx(d) == CHOOSE i \in 0..63 : ToString(i) = d
+BaseName(n) == LET idx == {i \in 1..Len(n) : SubSeq(n, i, i) = "/"}
+               IN IF idx = {} THEN n ELSE SubSeq(n, Max(idx) + 1, Len(n))
 
 (* candidate sources for copy detection of the fresh file fs[d][n] *)
 CopySources(C, fs, d, n) ==
     {<<e, m>> \in UNION {{<<e, m>> : m \in DOMAIN C.cf[e]} : e \in D} :
         /\ SameStamp(C.cf[e][m], fs[d][n])
-        /\ m = n
+        \* with a usable sub-second part the name alone is compared, else the whole path (scan.c:1051-1054)
+        /\ IF fs[d][n].mt[2] # 0 /\ fs[d][n].mt[2] >= 0 THEN BaseName(m) = BaseName(n) ELSE m = n
         /\ ~(e = d /\ m \in Gone(C, fs, d))      \* the replaced record of the same path is removed first
+        \* disks are scanned one after the other in configuration order (--test-skip-multi-scan in the conformance
+        \* runs): a record replaced on an earlier disk is already gone, one on a later disk is still there
+        /\ ~(DiskIdx(e) < DiskIdx(d) /\ m \in Changed(C, fs, e))
         /\ FullHashed(C.cf[e][m])}
 
 (* removal rule for the hash of a block that becomes DELETED (scan.c:346-388) *)
@@ -227,18 +233,36 @@ ZeroInterlock(C, fs) ==
 
 NoDifference(C, fs) == \A d \in D : Gone(C, fs, d) = {} /\ Fresh(C, fs, d) = {}
 
-SrcsFull(C, fs, srcs) == Eager([d \in D |-> Eager([n \in Fresh(C, fs, d) |-> SrcOf(srcs, d, n)])])
-(* A candidate source whose own record is replaced in this scan (same path, new stamp, on another disk) is removed
-   from the stamp index by that disk's scan thread while the threads run in parallel (scan.c:993): whether it is
-   still found is a matter of scheduling, so both outcomes are admitted.  Sources that are merely deleted stay
-   available until all disks are scanned (scan.c:1668-1700). *)
-StableSources(C, fs, d, n) == {x \in CopySources(C, fs, d, n) : x[2] \notin Changed(C, fs, x[1])}
+(* With parallel scan threads (the default) a candidate source whose own record is replaced or re-allocated in the same
+   scan on another disk may or may not be found, and may even be copied while its hashes are being invalidated
+   (scan.c:993, 672-686, 1058-1060): the outcome depends on thread timing (finding F10, C13).  The conformance runs
+   therefore scan the disks sequentially; sources that are merely deleted stay available until all disks are
+   scanned (scan.c:1668-1700). *)
+(* a file that was itself taken as a copy earlier in the same scan (on a disk scanned before) carries hashes and can
+   be the source of a further copy *)
+FreshSources(C, fs, srcs, d, n) ==
+    {x \in UNION {{<<e, m>> : m \in Fresh(C, fs, e)} : e \in {e \in D : DiskIdx(e) < DiskIdx(d)}} :
+        /\ SrcOf(srcs, x[1], x[2]) # <<>>
+        /\ SameStamp(fs[x[1]][x[2]], fs[d][n])
+        /\ Len(fs[x[1]][x[2]].b) > 0
+        /\ IF fs[d][n].mt[2] # 0 /\ fs[d][n].mt[2] >= 0 THEN BaseName(x[2]) = BaseName(n) ELSE x[2] = n}
+(* the recorded file whose hashes a copy finally carries.  A reference <<e, m>> from a file of disk d means the file
+   inserted earlier in this scan when e was scanned before d and m is fresh there, the recorded file otherwise
+   (a record that is replaced on a disk scanned later is still the old one).  cx = [d: referring disk, x: reference];
+   chains are as long as the number of disks at most. *)
+SrcStep(C, fs, srcs, cx) ==
+    IF cx.x # <<>> /\ DiskIdx(cx.x[1]) < DiskIdx(cx.d) /\ cx.x[2] \in Fresh(C, fs, cx.x[1])
+    THEN [d |-> cx.x[1], x |-> SrcOf(srcs, cx.x[1], cx.x[2])] ELSE cx
+RootSrcOf(C, fs, srcs, d, x) ==
+    SrcStep(C, fs, srcs, SrcStep(C, fs, srcs, SrcStep(C, fs, srcs, SrcStep(C, fs, srcs, SrcStep(C, fs, srcs, [d |-> d, x |-> x]))))).x
+SrcsFull(C, fs, srcs) == Eager([d \in D |-> Eager([n \in Fresh(C, fs, d) |-> RootSrcOf(C, fs, srcs, d, SrcOf(srcs, d, n))])])
 SrcsOK(C, fs, srcs, nocopy) ==
     \A d \in D : \A n \in Fresh(C, fs, d) :
         LET s == SrcOf(srcs, d, n)
+            all == CopySources(C, fs, d, n) \cup FreshSources(C, fs, srcs, d, n)
         IN IF nocopy THEN s = <<>>
-           ELSE IF s = <<>> THEN StableSources(C, fs, d, n) = {}
-           ELSE <<s[1], s[2]>> \in CopySources(C, fs, d, n)
+           ELSE IF s = <<>> THEN all = {}
+           ELSE <<s[1], s[2]>> \in all
 
 Scan(C, fs, srcs0, keep_past) ==
     LET srcs == SrcsFull(C, fs, srcs0)
@@ -268,10 +292,20 @@ RecoverOK(par, p, E, L, buf) ==
     /\ \A l \in L : ParAt(par, l, p).k = "V"
     /\ \A l1, l2 \in L : ParAt(par, l1, p).w = ParAt(par, l2, p).w
     /\ LET w == ParAt(par, CHOOSE l \in L : TRUE, p).w IN \A d \in D \ E : buf[d] = w[d]
+(* The first level is a plain XOR, so for a single lost block rebuilt from it alone the result is exact whatever the
+   other buffers hold: values that occur an even number of times among (encoded vector, other buffers) cancel.  This
+   matters when a file moved to another disk lands on the stripe position its old copy (now a deleted block, read
+   as zero) still occupies in the parity. *)
+XorRecover(w, d, buf) ==
+    LET vals == {w[e] : e \in D} \cup {buf[e] : e \in D \ {d}}
+        occ(v) == Cardinality({e \in D : w[e] = v}) + Cardinality({e \in D \ {d} : buf[e] = v})
+        odd == {v \in vals \ {"Z"} : occ(v) % 2 = 1}
+    IN IF odd = {} THEN "Z" ELSE IF Cardinality(odd) = 1 THEN CHOOSE v \in odd : TRUE ELSE "G:rec"
 Recovered(par, p, E, L, buf) ==
     LET w == ParAt(par, CHOOSE l \in L : TRUE, p).w
         ok == RecoverOK(par, p, E, L, buf)
-    IN Eager([d \in D |-> IF d \in E THEN (IF ok THEN w[d] ELSE "G:rec") ELSE buf[d]])
+        xr == L = {1} /\ Cardinality(E) = 1 /\ ParAt(par, 1, p).k = "V"
+    IN Eager([d \in D |-> IF d \in E THEN (IF ok THEN w[d] ELSE IF xr THEN XorRecover(w, d, buf) ELSE "G:rec") ELSE buf[d]])
 
 ReadOutcome(M, fs, d, b) ==
     \* "ok" with the value read, or "err" when the file vanished or changed since the scan
@@ -361,14 +395,34 @@ SyncRange(M, fs, par, lo, bm, now, ff, rlen) ==
         aborted |-> ab # {}, ndone |-> Cardinality(en)]
 SyncAll(M, fs, par, bm, now, ff, rlen) == SyncRange(M, fs, par, 0, bm, now, ff, rlen)
 
+(* Pre-hash (-h, sync.c:31-418): before anything is written every CHG and REP block of the range is read; a REP block
+   (hash taken over from a presumed copy or an earlier pre-hash) whose data does not match stops the whole sync
+   before the parity is touched; CHG blocks become REP with the hash just computed. *)
+Prehash(M, fs, lo, hi) ==
+    LET todo(d, n, i) == M.cf[d][n].bl[i].st \in {"CHG", "REP"} /\ M.cf[d][n].bl[i].pos >= lo /\ M.cf[d][n].bl[i].pos < hi
+        val(d, n, i) == IF n \in DOMAIN fs[d] /\ i <= Len(fs[d][n].b) THEN fs[d][n].b[i] ELSE "Z"
+        hsh(d, n, i) == HashOf(val(d, n, i), BlkLen(M.cf[d][n].sz, i))
+        allb == UNION {{<<d, x[1], x[2]>> : x \in FileBlocks(M, d)} : d \in D}
+        mism == {x \in allb : todo(x[1], x[2], x[3]) /\ M.cf[x[1]][x[2]].bl[x[3]].st = "REP" /\ hsh(x[1], x[2], x[3]) # M.cf[x[1]][x[2]].bl[x[3]].h}
+        conv == {x \in allb : todo(x[1], x[2], x[3]) /\ M.cf[x[1]][x[2]].bl[x[3]].st = "CHG"}
+    IN [M |-> [cf |-> [d \in D |-> [n \in DOMAIN M.cf[d] |->
+                   [M.cf[d][n] EXCEPT !.bl = [i \in 1..Len(M.cf[d][n].bl) |->
+                       IF <<d, n, i>> \in conv THEN [M.cf[d][n].bl[i] EXCEPT !.st = "REP", !.h = hsh(d, n, i)] ELSE M.cf[d][n].bl[i]]]]],
+               del |-> M.del, info |-> M.info],
+        skip |-> mism # {}, nmism |-> Cardinality(mism), nconv |-> Cardinality(conv)]
+
 (* Sync: C = content on disk, fs0 = data at scan time, fs1 = data when the stripes are read.
    opts = [force_full, force_empty, force_zero, nocopy]; srcs = copy-source choice *)
 SyncResult(C, fs0, fs1, par, now, opts, srcs) ==
     LET L0 == IF opts.nocopy THEN ForceNoCopy(ClearPast(C)) ELSE ClearPast(C)
         refused == \/ (~opts.force_empty /\ EmptyInterlock(L0, fs0, srcs))
                    \/ (~opts.force_zero /\ ZeroInterlock(L0, fs0))
-        M == WithIndex(Scan(L0, fs0, srcs, TRUE))
-        bm == AllocatedMax(M)
+        M0 == Scan(L0, fs0, srcs, TRUE)
+        bm == AllocatedMax(M0)
+        lo0 == IF "bstart" \in DOMAIN opts THEN opts.bstart ELSE 0
+        hi0 == IF "bcount" \in DOMAIN opts /\ opts.bcount # 0 /\ lo0 + opts.bcount < bm THEN lo0 + opts.bcount ELSE bm
+        pre == IF "prehash" \in DOMAIN opts /\ opts.prehash THEN Prehash(M0, fs0, lo0, hi0) ELSE [M |-> M0, skip |-> FALSE, nmism |-> 0, nconv |-> 0]
+        M == WithIndex(pre.M)
         small == ~opts.force_full /\ \E l \in Levels : Len(par[l]) < UsedMax(M)
         par1 == Resize(par, bm)
         \* a SIGINT/SIGTERM stops the run gracefully after the stripe being processed (opts.stop = position + 1, 0 = none)
@@ -388,6 +442,8 @@ SyncResult(C, fs0, fs1, par, now, opts, srcs) ==
         en == {p \in lo..(bmp - 1) : StripeEnabled(M, p, opts.force_full)}
     IN IF ~SrcsOK(L0, fs0, srcs, opts.nocopy) THEN [C |-> C, par |-> par, out |-> [exit |-> "bad-copy-source", err |-> 0, silent |-> 0]]
        ELSE IF refused \/ small \/ lo > bm THEN [C |-> C, par |-> par, out |-> [exit |-> "refused", err |-> 0, silent |-> 0]]
+       ELSE IF pre.skip THEN [C |-> IF ~opts.kill_after /\ (scanchg \/ pre.nconv > 0) THEN Normalize(pre.M) ELSE C, par |-> par,
+                              out |-> [exit |-> "prehash-stop", err |-> 0, silent |-> pre.nmism]]
        ELSE [C |-> IF opts.kill_after THEN presave
                    ELSE IF (en = {} \/ (r.aborted /\ r.ndone = 0)) /\ ~scanchg /\ ~resized THEN C ELSE Normalize(r.M),
              par |-> r.par,
@@ -437,7 +493,10 @@ CheckRead(C, fs, d, b) ==
 
 (* Returns [ok, bad (disks with a bad block), ood (bad blocks whose recovered content is not trusted),
             buf (block contents to write back), perr (parity levels found wrong), parfix (recomputed vector)] *)
-CheckStripe(C, fs, par, p, present0) ==
+NoExt == [stamp |-> {}, blocks |-> {}]
+(* ext: what -i DIR adds to the search by size and time stamp (ext.stamp: file records [b, mt, sz]) and what
+   --test-import-content DIR offers by content (ext.blocks: block values, looked up by hash) *)
+CheckStripeX(C, fs, par, p, present0, ext) ==
     LET present == {l \in present0 : p + 1 <= Len(par[l])}      \* a parity file that is too short gives a read error
         blk == Eager([d \in D |-> BlockAt(C, d, p)])
         files == {d \in D : HasFile(blk[d])}
@@ -453,12 +512,13 @@ CheckStripe(C, fs, par, p, present0) ==
         \* stamp of the recorded file, at the same offset, and are taken only if they match the hash
         \* (state_search_array / state_search_fetch, search.c; not in audit-only mode)
         allfs == UNION {{<<e, m>> : m \in DOMAIN fs[e]} : e \in D}
+        cand == {fs[x[1]][x[2]] : x \in allfs} \cup ext.stamp
         fetched == IF present0 = {} THEN {} ELSE
                    {d \in bad : blk[d].st \in {"BLK", "REP"} /\
-                       \E x \in allfs : LET g == fs[x[1]][x[2]]
-                                             rec == C.cf[d][blk[d].n]
-                                         IN g.sz = rec.sz /\ g.mt = rec.mt /\ blk[d].i <= Len(g.b)
-                                            /\ HashOf(g.b[blk[d].i], lens[d]) = blk[d].h}
+                       (\/ \E g \in cand : LET rec == C.cf[d][blk[d].n]
+                                            IN g.sz = rec.sz /\ g.mt = rec.mt /\ blk[d].i <= Len(g.b)
+                                               /\ HashOf(g.b[blk[d].i], lens[d]) = blk[d].h
+                        \/ \E v \in ext.blocks : HashOf(v, LenOf(v)) = blk[d].h)}
         buf1 == Eager([d \in D |-> IF d \in fetched THEN blk[d].h ELSE buf0[d]])
         \* strategy 1: the parity is up to date
         F1 == bad \ fetched
@@ -471,9 +531,12 @@ CheckStripe(C, fs, par, p, present0) ==
         \* strategy 2: the parity still holds the state before the interrupted sync
         unsynced == {d \in D : blk[d].st \in {"CHG", "REP", "DEL"}}
         zeroed == {d \in unsynced : blk[d].st = "CHG" /\ blk[d].h = "ZERO"}
-        F2 == (unsynced \ zeroed) \cup {d \in bad : blk[d].st = "BLK"}
+        \* the old content of CHG / deleted blocks with a trusted past hash is taken from imported content when offered
+        oldimp == {d \in unsynced \ zeroed : blk[d].st \in {"CHG", "DEL"} /\ IsUnique(blk[d].h)
+                                             /\ \E v \in ext.blocks : HashOf(v, LenOf(v)) = blk[d].h}
+        F2 == (unsynced \ (zeroed \cup oldimp)) \cup {d \in bad : blk[d].st = "BLK"}
         V2 == {d \in bad : blk[d].st = "BLK"}
-        buf2 == Eager([d \in D |-> IF d \in zeroed THEN "Z" ELSE buf0[d]])
+        buf2 == Eager([d \in D |-> IF d \in zeroed THEN "Z" ELSE IF d \in oldimp THEN blk[d].h ELSE buf0[d]])
         try2 == V2 # {} /\ unsynced # {}
         s2 == RepairStep(par, p, F2, V2, buf2, present, blk, lens)
         ood2 == {d \in bad : blk[d].st \in {"CHG", "REP"}}
@@ -501,6 +564,8 @@ CheckStripe(C, fs, par, p, present0) ==
         lost |-> IF ok /\ used_parity /\ valid_parity THEN Levels \ present ELSE {}, rderr |-> present0 \ present,
         pv |-> pv, blk |-> blk, lens |-> lens, path |-> path]
 
+CheckStripe(C, fs, par, p, present0) == CheckStripeX(C, fs, par, p, present0, NoExt)
+
 (***************************************************************************)
 (* Check / Fix over the whole array.  present = parity levels whose file   *)
 (* can be read.  sel = [D -> set of selected (non excluded) file names].   *)
@@ -513,9 +578,33 @@ NoStripe == [ok |-> TRUE, bad |-> {}, ood |-> {}, buf |-> ZeroVec, perr |-> {}, 
 RangeOf(rg, bm) == LET lo == IF "bstart" \in DOMAIN rg THEN rg.bstart ELSE 0
                        hi == IF "bcount" \in DOMAIN rg /\ rg.bcount # 0 /\ lo + rg.bcount < bm THEN lo + rg.bcount ELSE bm
                    IN lo..(hi - 1)
-CheckRange(C0, fs, par, present, rng) ==
+CheckRangeX(C0, fs, par, present, rng, ext) ==
     LET C == WithIndex(C0)
-    IN Eager([p \in 0..(AllocatedMax(C) - 1) |-> IF p \in rng THEN CheckStripe(C, fs, par, p, present) ELSE NoStripe])
+    IN Eager([p \in 0..(AllocatedMax(C) - 1) |-> IF p \in rng THEN CheckStripeX(C, fs, par, p, present, ext) ELSE NoStripe])
+
+(* fix works through the stripes in order and the search for a block in other files reads those files at that
+   moment: blocks of candidate files that were repaired at a lower position are already good.  Second pass with
+   the repairs of the first one (chains longer than that are not modelled). *)
+FsAfter(C, fs, R, rng, p) ==
+    [d \in D |-> [n \in DOMAIN fs[d] |->
+        IF n \notin DOMAIN C.cf[d] THEN fs[d][n]
+        ELSE [fs[d][n] EXCEPT !.b = [i \in 1..Len(fs[d][n].b) |->
+                 IF i <= Len(C.cf[d][n].bl)
+                 THEN LET q == C.cf[d][n].bl[i].pos
+                      IN IF q < p /\ q \in rng /\ R[q].ok /\ d \in R[q].bad /\ d \notin R[q].ood
+                         THEN Written(R[q].buf[d], BlkLen(C.cf[d][n].sz, i)) ELSE fs[d][n].b[i]
+                 ELSE fs[d][n].b[i]]]]]
+FixRangeStripes(C0, fs, par, present, rng, ext) ==
+    LET C == WithIndex(C0)
+        R1 == CheckRangeX(C0, fs, par, present, rng, ext)
+        need == {p \in rng : p < AllocatedMax(C) /\ ~R1[p].ok}
+    IN Eager([p \in 0..(AllocatedMax(C) - 1) |->
+              IF p \in need
+              THEN CheckStripeX(C, fs, par, p, present,
+                                [ext EXCEPT !.stamp = @ \cup {FsAfter(C0, fs, R1, rng, p)[x[1]][x[2]] :
+                                                                 x \in UNION {{<<e, m>> : m \in DOMAIN fs[e]} : e \in D}}])
+              ELSE R1[p]])
+CheckRange(C0, fs, par, present, rng) == CheckRangeX(C0, fs, par, present, rng, NoExt)
 CheckAll(C0, fs, par, present) == CheckRange(C0, fs, par, present, 0..(AllocatedMax(C0) - 1))
 
 (* a file found larger than recorded is reported once, at the first of its blocks that is processed *)
@@ -559,11 +648,11 @@ FixView(C, fs, sel) ==
         IN Eager([n \in (DOMAIN fs[d] \ {Unrec(m) : m \in back}) \cup back |-> IF n \in back THEN fs[d][Unrec(n)] ELSE fs[d][n]])])
 
 AnyMt == <<0 - 1, 0>>      \* time stamp left by the kernel after a write that is not followed by the restore of the recorded one
-FixRange(C, fs0, par, present, sel, rg) ==
+FixRangeX(C, fs0, par, present, sel, rg, ext) ==
     LET fs == FixView(C, fs0, sel)
         bm == AllocatedMax(C)
         rng == RangeOf(rg, bm)
-        R == CheckRange(C, fs, par, present, rng)
+        R == FixRangeStripes(C, fs, par, present, rng, ext)
         fo == Eager([d \in D |-> Eager([n \in DOMAIN C.cf[d] |-> FileOutcome(C, fs, R, d, n, rng)])])
         isel(d, n) == n \in sel[d]
         allf == UNION {{<<d, n>> : n \in DOMAIN C.cf[d]} : d \in D}
@@ -608,12 +697,13 @@ FixRange(C, fs0, par, present, sel, rg) ==
         out |-> [exit |-> IF nunrec # 0 THEN "unrecoverable" ELSE IF nerr = 0 /\ recov = {} /\ pfix = {} THEN "ok" ELSE "recovered",
                  derr |-> derr, unrec |-> unrec, recovered |-> recov, pfix |-> pfix, nunrec |-> nunrec]]
 
+FixRange(C, fs0, par, present, sel, rg) == FixRangeX(C, fs0, par, present, sel, rg, NoExt)
 FixResult(C, fs0, par, present, sel) == FixRange(C, fs0, par, present, sel, <<>>)
 
-CheckResultR(C, fs, par, present, audit, rg) ==
+CheckResultX(C, fs, par, present, audit, rg, ext) ==
     LET bm == AllocatedMax(C)
         rng == RangeOf(rg, bm)
-        R == CheckRange(C, fs, par, IF audit THEN {} ELSE present, rng)
+        R == CheckRangeX(C, fs, par, IF audit THEN {} ELSE present, rng, ext)
         derr == {<<p, d>> \in (0..(bm - 1)) \X D : d \in R[p].bad} \cup {y \in SizeErrors(C, fs) : y[1] \in rng}
         perr == {<<p, l>> \in (0..(bm - 1)) \X Levels : l \in R[p].perr \cup R[p].rderr}
         nunrec == Cardinality({p \in 0..(bm - 1) : R[p].bad # {} /\ (~R[p].ok \/ R[p].ood # {})})
@@ -625,6 +715,7 @@ CheckResultR(C, fs, par, present, audit, rg) ==
                  ELSE IF derr = {} /\ perr = {} /\ missing0 = {} THEN "ok" ELSE "recoverable",
         derr |-> derr, perr |-> perr, nunrec |-> nunrec]
 
+CheckResultR(C, fs, par, present, audit, rg) == CheckResultX(C, fs, par, present, audit, rg, NoExt)
 CheckResult(C, fs, par, present, audit) == CheckResultR(C, fs, par, present, audit, <<>>)
 
 (***************************************************************************)
